@@ -2,7 +2,7 @@
 
 Value specs (JSON-able, used in replays):
   ["none"] ["undef"] ["bool", b] ["int", hex, sub] ["float", float.hex()|"nan"|"inf"|"-inf", sub]
-  ["str", [code points], sub] ["bytes", [ints]] ["list", [spec..]] ["dict", [[key cps, spec]..]]
+  ["str", [code points], sub] ["bytes", [ints]] ["list", [spec..]] ["tuple", [spec..]] ["dict", [[key cps, spec]..]]
   ["obj", id, builtin, [code points of str(o)]]
 `sub` = 1 builds an instance of a trivial subclass (class I(int): pass) of the base type.
 """
@@ -91,6 +91,8 @@ def to_py(spec, reg):
         return bytes(spec[1])
     if k == "list":
         return [to_py(x, reg) for x in spec[1]]
+    if k == "tuple":
+        return tuple(to_py(x, reg) for x in spec[1])
     if k == "dict":
         return {"".join(map(chr, kk)): to_py(x, reg) for kk, x in spec[1]}
     if k == "obj":
@@ -150,8 +152,8 @@ def to_wire(spec):
         return [5] + enc_text(spec[1])
     if k == "bytes":
         return [6] + enc_text(spec[1])
-    if k == "list":
-        out = [7, len(spec[1])]
+    if k in ("list", "tuple"):
+        out = [7 if k == "list" else 10, len(spec[1])]
         for x in spec[1]:
             out += to_wire(x)
         return out
@@ -269,6 +271,8 @@ def edge_values(thorough=False):
     vals += [["list", []], ["list", [ispec(1)]], ["list", [sspec("1")]], ["list", [["list", []]]],
              ["list", [fspec(math.nan)]], ["list", [ispec(1), ["bool", 1], fspec(1.0)]],
              ["dict", []], ["dict", [[[97], ispec(1)]]], ["dict", [[[97], ["list", [ispec(1)]]], [[98], ["none"]]]]]
+    vals += [["tuple", []], ["tuple", [ispec(1)]], ["tuple", [ispec(1), ispec(1)]], ["tuple", [["list", [ispec(1)]]]],
+             ["tuple", [sspec("1")]], ["list", [["tuple", [ispec(1)]]]]]
     vals += [["obj", 101, 0, [ord(c) for c in "custom"]], ["obj", 102, 0, [49, 50]], ["obj", 103, 0, []],
              ["obj", 104, 1, []], ["obj", 105, 0, [ord(c) for c in "1e3"]], ["obj", 106, 0, [0x661]]]
     return vals
@@ -281,7 +285,7 @@ NUM_ALPHA = list("0123456789") + list("0011--++..eE__  xX") + ["١", "٩", "２"
 OBJ_STRS = ["", "1", "-1", "1e3", " 1", "١", "0x10", "abc", "nan", "1.5", "2147483648", "true"]
 
 
-def rand_value(rng, depth=0, thorough=False):
+def rand_value(rng, depth=0, thorough=False, tuples=False):
     r = rng.random()
     if r < 0.30:
         kind = rng.randrange(8)
@@ -340,10 +344,12 @@ def rand_value(rng, depth=0, thorough=False):
         return rng.choice([["none"], ["undef"]])
     if depth >= 2:
         return ispec(rng.randrange(3))
+    if r < 0.965 and tuples:
+        return ["tuple", [rand_value(rng, depth + 1, thorough, tuples) for _ in range(rng.randrange(3))]]
     if r < 0.98:
-        return ["list", [rand_value(rng, depth + 1) for _ in range(rng.randrange(3))]]
+        return ["list", [rand_value(rng, depth + 1, thorough, tuples) for _ in range(rng.randrange(3))]]
     keys = rng.sample("abc", rng.randrange(3))
-    return ["dict", [[[ord(k)], rand_value(rng, depth + 1)] for k in keys]]
+    return ["dict", [[[ord(k)], rand_value(rng, depth + 1, thorough, tuples)] for k in keys]]
 
 
 ENUM_POOL = None
@@ -362,6 +368,12 @@ def enum_pool():
              ["dict", []], ["dict", [[[97], ispec(1)]]], ["dict", [[[97], fspec(1.0)]]], ["dict", [[[97], ["bool", 1]]]],
              ["dict", [[[97], ispec(1)], [[98], ispec(2)]]], ["dict", [[[98], ispec(2)], [[97], ispec(1)]]],
              ["dict", [[[97], ispec(2)]]], ["dict", [[[98], ispec(1)]]], ["dict", [[[97], ["list", [ispec(1)]]]]],
+             ["tuple", []], ["tuple", [ispec(1)]], ["tuple", [ispec(1), ispec(1)]], ["list", [ispec(1), ispec(1)]],
+             ["tuple", [ispec(1), ispec(2)]], ["tuple", [fspec(1.0), ["bool", 1]]], ["tuple", [fspec(1.0), ispec(2)]],
+             ["tuple", [["list", [ispec(1)]]]], ["tuple", [["tuple", [ispec(1)]]]], ["list", [["tuple", [ispec(1)]]]],
+             ["list", [["list", [ispec(1)]]]], ["tuple", [["list", []]]], ["tuple", [sspec("A")]],
+             ["tuple", [fspec(math.nan)]], ["tuple", [["none"]]], ["tuple", [["dict", [[[97], ispec(1)]]]]],
+             ["dict", [[[97], ["tuple", [ispec(1)]]]]], ["dict", [[[97], ["list", [ispec(1)]]]]],
              ["obj", 201, 0, [65]], ["obj", 202, 0, [65]], ["obj", 203, 1, []], ["obj", 204, 1, []], ispec(1, 1),
              fspec(1.0, 1)]
         ENUM_POOL = P
@@ -609,7 +621,7 @@ class Runner:
                                  dict(replay, relation="execution never raises"))
                     continue
             found = out[0] == 0 and out != [0, 0]
-            ck.note_case(("enum", how, key), nontrivial=found or sp[0] in ("list", "dict"),
+            ck.note_case(("enum", how, key), nontrivial=found or sp[0] in ("list", "dict", "tuple"),
                          sample={"enum": members, "value": sp} if found and len(key) < 100 else None)
             ck.count(f"enum:{how}:{'ok' if out[0] == 0 else 'error'}")
             if got[0] == "err":
@@ -655,7 +667,7 @@ class Runner:
             except TypeError:
                 h = 0
             got = [1 if x == y else 0, h]
-            ck.note_case(("eq", json.dumps([a, b])), nontrivial=a[0] != b[0] or a[0] in ("list", "dict"))
+            ck.note_case(("eq", json.dumps([a, b])), nontrivial=a[0] != b[0] or a[0] in ("list", "dict", "tuple"))
             if got != out:
                 ck.violation(f"eq:{json.dumps([a, b])[:300]}", f"Python == / hashable of {short(a)}, {short(b)} = {got}, "
                              f"model {out}", {"relation": "pyeq = Python ==", "a": a, "b": b, "impl": got, "model": out})
@@ -714,7 +726,7 @@ def run(tier):
             specs.append(c["value"])
     specs += edge_values(not quick)
     n_rand = 2500 if quick else 60000
-    specs += [rand_value(ck.rng, 0, not quick) for _ in range(n_rand)]
+    specs += [rand_value(ck.rng, 0, not quick, True) for _ in range(n_rand)]
     ck.rule = ("(A) every edge value (bool; ints around 2^31, 2^53, 2^1024, the 4300-digit str limit; floats incl. -0.0, nan, "
                "inf, subnormals, 1e308; numeric-looking/whitespace/non-ASCII-digit/empty strings; bytes; lists; dicts; "
                f"objects with __str__; None; Undefined; int/float/str subclasses) and {n_rand} random values x 5 built-in "
@@ -722,7 +734,7 @@ def run(tier):
                "extracted model: ok/error and exact value; on every emitted value the property predicates (domain, "
                "JSON-representable, re-accepted by coerce_input_value with the same meaning, numeric value unchanged) "
                "and the model of the input coercer; (B) input coercers on all values; (C) random enums over a pool of "
-               "colliding internal values (True/1/1.0, -0.0, nan, None, Undefined, unhashable lists/dicts, objects): "
+               "colliding internal values (True/1/1.0, -0.0, nan, None, Undefined, unhashable lists/dicts, tuples vs lists with equal items, tuples holding unhashable items, objects): "
                "coerce_output_value direct and through execute_sync vs model, result a declared name, re-accepted; "
                "(D) Python == and hashability vs pyeq on all pool pairs. non-trivial = value is a bool/int/float/str/"
                "custom object (scalars), or the enum lookup finds a name or takes the unhashable path")
@@ -734,7 +746,7 @@ def run(tier):
     R.input_batch(specs[: (1500 if quick else 20000)])
     pool = enum_pool()
     R.eq_batch([(a, b) for a in pool for b in pool])
-    extra = [rand_value(ck.rng) for _ in range(300 if quick else 3000)]
+    extra = [rand_value(ck.rng, 0, False, True) for _ in range(300 if quick else 3000)]
     R.eq_batch([(ck.rng.choice(extra), ck.rng.choice(extra)) for _ in range(2000 if quick else 50000)]
                + [(a, a) for a in extra])
     R.enum_batch(gen_enums(ck.rng, 150 if quick else 4000, 12 if quick else 25))
